@@ -16,7 +16,7 @@ RULE = (
     "programs: seeded buffer-family functions (memref.copy on the data-mover core, linalg.generic on the compute core, on 3 L3 arguments and "
     "3 L1 allocs; pre-existing barriers; scf.for nesting <= 3, scf.if; trip counts 0..3) compiled with insert-sync-barrier "
     "(variant A: cores skip ops of other cores by the dispatch rule re-stated in /verif; variant B: followed by dispatch-regions and executed "
-    "literally; in a fifth of the cases tagged ops that every core executes read a local buffer; variants C / D: allocations placed late and explicit deallocs, compiled with the static-allocation slice of the snaxc pipeline "
+    "literally; in an eighth of the A/B cases one operand is an arith.select of two local buffers; in a fifth of the cases tagged ops that every core executes read a local buffer; variants C / D: allocations placed late and explicit deallocs, compiled with the static-allocation slice of the snaxc pipeline "
     "insert-sync-barrier,memref-to-snax,canonicalize,snax-allocate{mode=minimalloc},insert-sync-barrier [,dispatch-regions] and executed on "
     "address-indexed L1 cells, so that two buffers the allocator put at one address are one piece of memory). N in 2..4 cores run the function on the simulated cluster under K seeded schedules with stalls and burst sizes 1/2/whole. "
     "Online: barrier-epoch race monitor on every memory cell, barrier deadlock. Afterwards: final contents of all buffers and the inputs every "
@@ -35,6 +35,7 @@ def gen_case(rng, tier):
     if prof["op_reads"]:
         prof["w_op"] = max(prof["w_op"], 2)
     variant = rng.choices(["A", "B", "C", "D"], [55, 20, 17, 8])[0]
+    prof["select"] = variant in "AB" and rng.random() < 0.12  # an alias that is one of two buffers (arith.select)
     if variant in "CD":
         # static allocation: buffers allocated late / freed early so that the allocator hands the same address out twice
         prof.update(streams=False, multiblock=False, late_allocs=True, n_allocs=rng.choice([3, 4, 5]), p_dealloc=rng.choice([0.0, 0.0, 0.4]))
@@ -166,7 +167,32 @@ def _kf_c13_1(case, outcome):
     return bool(outcome.get("oracle") == "race" and any(str(o).startswith("test.op#") for o in ops))
 
 
-TRIGGERS = {"reader_executed_by_every_core_is_not_a_dependency_source": _kf_c13_1}
+def _stmts_by_tag(body, out):
+    for st in body:
+        if "tag" in st:
+            out[str(st["tag"])] = st
+        for key in ("body", "then", "else"):
+            _stmts_by_tag(st.get(key, []), out)
+    return out
+
+
+def _kf_c13_2(case, outcome):
+    import re
+
+    if outcome.get("oracle") != "race" or not case["ast"].get("select"):
+        return False
+    by_tag = _stmts_by_tag(case["ast"]["body"], {})
+    for b in case["ast"].get("blocks") or []:
+        _stmts_by_tag(b, by_tag)
+    for o in (outcome.get("details") or {}).get("ops") or ():
+        m = re.search(r"#k?(\d+)$", str(o))
+        st = by_tag.get(m.group(1)) if m else None
+        if st and "%sel0" in [st.get("src"), st.get("dst"), st.get("out"), *st.get("ins", [])]:
+            return True
+    return False
+
+
+TRIGGERS = {"reader_executed_by_every_core_is_not_a_dependency_source": _kf_c13_1, "alias_through_select_is_not_followed": _kf_c13_2}
 
 
 def shrink(case):
